@@ -157,6 +157,7 @@ type Interp struct {
 	modelCache     map[*term.Term]uint64
 	modelBad       map[*term.Term]bool
 	witnessHits    int
+	observeTerms   []obsTerm
 }
 
 type workItem struct {
@@ -195,13 +196,6 @@ func newInterp(prog *ssa.Program, cfg *Config, sh *shared, stubs map[string]*ssa
 				s.Log = f
 			}
 		}
-		if cfg.AltSolver != "" {
-			a, err := smt.New(cfg.AltSolver, cfg.TimeoutMs)
-			if err != nil {
-				return nil, err
-			}
-			it.alt = a
-		}
 	}
 	if rt := prog.ImportedPackage("runtime"); rt != nil {
 		if tn := rt.Type("errorString"); tn != nil {
@@ -223,21 +217,33 @@ func (it *Interp) close() {
 
 // check decides sat(pc ∧ q) with the portfolio.
 func (it *Interp) check(q *term.Term, vars map[string]uint8) (smt.Result, map[string]uint64) {
-	if it.alt != nil && it.hardArith(q) {
-		r, m := it.alt.Check(it.pc, q, vars)
-		if r != smt.Unknown {
-			it.alt.Stats.AltUsed++
-			return r, m
+	if it.cfg.AltSolver != "" && it.hardArith(q) {
+		// division/multiplication by non-trivial operands: incremental back ends stall on these;
+		// go straight to fresh processes, integer-encoding solver first in the portfolio
+		kinds := []string{it.cfg.AltSolver}
+		for _, k := range it.cfg.OneShotSolvers {
+			if k != it.cfg.AltSolver {
+				kinds = append(kinds, k)
+			}
 		}
+		t0 := time.Now()
+		it.oneShots++
+		dump := ""
+		if it.cfg.DumpDir != "" {
+			dump = fmt.Sprintf("%s/q%d.smt2", it.cfg.DumpDir, it.oneShots)
+		}
+		ms := it.cfg.OneShotMs
+		if ms <= 0 {
+			ms = 60000
+		}
+		r, m, kind := smt.OneShot(kinds, ms, it.pc, q, vars, dump)
+		it.oneShotTime += time.Since(t0)
+		if r != smt.Unknown {
+			it.oneShotWins[kind]++
+		}
+		return r, m
 	}
 	r, m := it.sol.Check(it.pc, q, vars)
-	if r == smt.Unknown && it.alt != nil {
-		r2, m2 := it.alt.Check(it.pc, q, vars)
-		if r2 != smt.Unknown {
-			it.alt.Stats.AltUsed++
-			return r2, m2
-		}
-	}
 	if r == smt.Unknown && it.cfg.OneShotMs > 0 {
 		t0 := time.Now()
 		it.oneShots++
@@ -678,6 +684,23 @@ func (it *Interp) assert(c *term.Term, msg string) {
 
 func (it *Interp) fail(f Failure) {
 	f.Observe = append([]string(nil), it.observe...)
+	if len(it.observeTerms) > 0 {
+		env := map[string]uint64{}
+		for _, in := range f.Inputs {
+			env[in.Name] = in.Value
+		}
+		cache := map[*term.Term]uint64{}
+		for _, o := range it.observeTerms {
+			f.Observe[o.pos] = fmt.Sprintf("%s=%d (symbolic, under the model)", o.label, int64(it.ts.Eval(o.t, env, cache)))
+		}
+	}
+	if it.cfg.Progress > 0 {
+		var sb strings.Builder
+		for _, in := range f.Inputs {
+			fmt.Fprintf(&sb, " %s=%d", in.Name, in.Value)
+		}
+		fmt.Fprintf(os.Stderr, "  FAILURE %s: %s |%s | observed: %v\n", f.Kind, f.Msg, sb.String(), f.Observe)
+	}
 	res := it.sh.res
 	res.mu.Lock()
 	defer res.mu.Unlock()
@@ -750,6 +773,7 @@ func (it *Interp) runPath(entry *ssa.Function, prefix []dec, model map[string]ui
 	it.depth = 0
 	it.stack = it.stack[:0]
 	it.observe = nil
+	it.observeTerms = nil
 	it.sawUnknown = false
 	it.reached = map[string]bool{}
 	it.assertsOK = 0
